@@ -221,9 +221,25 @@ def build(variant='plain'):
     return impl, model
 
 
+def coqchk(chk):
+    """thorough tier: re-check the compiled property file and its whole dependency closure with Coq's
+    independent checker and record the axioms it reports"""
+    import re
+    rc, out, err = vlib.sh(['timeout', '1500', 'coqchk', '-o', '-silent', '-Q', '.', 'MirV',
+                            'MirV.Properties_%s' % chk.prop], cwd=vlib.COQDIR)
+    txt = out + err
+    m = re.search(r'\* Axioms:(.*?)\* Constants', txt, re.S)
+    chk.cov['coqchk'] = dict(rc=rc, axioms=(m.group(1).strip() if m else '?'))
+    if rc != 0:
+        chk.notes.append('coqchk failed: ' + txt[-400:])
+    return rc == 0
+
+
 def run(chk):
     quick = chk.tier == 'quick'
     r = chk.prove()
+    if not quick and r['ok'] and not coqchk(chk):
+        r = dict(r, ok=False, log=r['log'] + '\ncoqchk rejected the compiled proofs')
     impl, model = build()
     chk.cov['trusted_base'] += ['extraction: ExtrOcamlBasic only, no Extract Constant/Inductive of our own',
                                 'ocaml/driver_c13.ml, harness/c13_link.c (parse, build tiny modules through the public API, print)',
